@@ -66,8 +66,9 @@ MUTANTS = [
      "        elif timestamp < self._last_timestamp:\n            timestamp = self._last_timestamp + 1\n", "        elif False:\n            timestamp = self._last_timestamp + 1\n", ["C08"]),
     ("validate-no-dependee-count", "parsing/task_index.py",
      "                        root_candidates[dep_id] += 1\n", "                        root_candidates[dep_id] += 0\n", ["C14"]),
-    ("validate-visited-late", "parsing/task_index.py",
-     "                if curr_id in visited:\n                    # We put this check here", "                if False and curr_id in visited:\n                    # We put this check here", ["C14"]),
+    # (removed: "validate-visited-late" -- dropping `if curr_id in visited: continue` from validate_all_loaded_tasks is an
+    #  EQUIVALENT mutant: visited tasks are expanded again, which only repeats increments of counters that are compared with 0
+    #  and costs time; verdicts, roots and errors are unchanged, and the check rightly stays quiet)
     ("revert-D20-slot-pop", "execution/ops/run_task_executable.py",
      "                env_vars.pop(SLOT_ENV_VARIABLE_NAME, None)\n", "                pass\n", ["C04"]),
     ("gate-parallel-mode-ignored", "execution/executor.py",
